@@ -244,6 +244,16 @@ fn main() {
     match r {
         Ok(code) => std::process::exit(code),
         Err(_) => {
+            // violations recorded by families that completed were each re-executed and confirmed;
+            // a harness panic in a later family does not take them back
+            if ctx.viol_total.load(std::sync::atomic::Ordering::Relaxed) > 0 {
+                eprintln!("MACHINERY NOTE: the harness panicked in a later family (see message above); the verdict rests on the violations confirmed before that");
+                if let Ok(code) = std::panic::catch_unwind(std::panic::AssertUnwindSafe(|| ctx.finish())) {
+                    if code == 1 {
+                        std::process::exit(1);
+                    }
+                }
+            }
             eprintln!("MACHINERY FAILURE: harness panicked (see message above); no verdict");
             std::process::exit(2)
         }
